@@ -157,6 +157,8 @@ type Frame struct {
 	loops    map[*ssa.BasicBlock]*loopInfo
 	heads    map[*loopInfo]*loopHead
 	hctx     *harnessCtx
+	localRegions []uint64
+	firstMemID int
 	iters    map[*ssa.Range]*iterInfo
 	inlineContracts bool
 }
@@ -201,6 +203,8 @@ type Engine struct {
 	strLitIDs map[string]uint64
 	unrolls map[string]*ssa.Function
 	topPkg string
+	reveal bool
+	usedLemmas map[string]bool
 	strict bool
 	heapHavocs int
 	forceOrdinal int
@@ -224,7 +228,7 @@ func NewEngine(prog *ssa.Program) *Engine {
 		contracts: map[*ssa.Function]*ssa.Function{}, invs: map[string]*ssa.Function{}, decs: map[string]*ssa.Function{},
 		assumedExterns: map[string]bool{}, inlined: map[string]bool{}, usedContracts: map[string]bool{}, fieldIDs: map[string]uint64{},
 		globalsRO: map[*ssa.Global][]*Term{}, unfoldFuel: 1, specUF: map[string]bool{}, axiomSeen: map[string]bool{},
-		strLitIDs: map[string]uint64{}, oblNames: map[string]bool{}, oblCounts: map[string]int{}, unfolding: map[*ssa.Function]int{}, unrolls: map[string]*ssa.Function{}, typeTags: map[string]uint64{}, ifaceVals: map[int]ifaceVal{}, maxDepth: 12, quantVars: map[string]*quantInfo{}}
+		strLitIDs: map[string]uint64{}, usedLemmas: map[string]bool{}, oblNames: map[string]bool{}, oblCounts: map[string]int{}, unfolding: map[*ssa.Function]int{}, unrolls: map[string]*ssa.Function{}, typeTags: map[string]uint64{}, ifaceVals: map[int]ifaceVal{}, maxDepth: 12, quantVars: map[string]*quantInfo{}}
 }
 
 func (e *Engine) warn(format string, a ...interface{}) {
@@ -615,6 +619,22 @@ func (e *Engine) assumeWF(st *State, ts []*Term, t types.Type) {
 		return
 	}
 	st.assume(wfAssumptions(ts, t, true))
+	e.assumeNotFuture(st, ts, t)
+}
+
+// assumeNotFuture: a region value obtained now cannot name an allocation that
+// has not happened yet (values from the pre-state: not one made during the call).
+func (e *Engine) assumeNotFuture(st *State, ts []*Term, t types.Type) {
+	for i, l := range leavesOf(t) {
+		if l.kind != LRegion || ts[i].IsConst() {
+			continue
+		}
+		lim := e.allocSeq
+		if ts[i].op == "uf" && strings.HasPrefix(ts[i].name, "M0.") {
+			lim = callAllocBase
+		}
+		st.assume(BVUle(ts[i], BVConstU(0xF000000000000000+lim, RegionSort)))
+	}
 }
 
 func (e *Engine) store(fr *Frame, st *State, a *Addr, v Value, instr ssa.Instruction) {
@@ -1570,6 +1590,10 @@ func (e *Engine) execInstr1(fr *Frame, st *State, in ssa.Instruction) {
 		if x.Heap || isArr {
 			a := e.allocObject(st, t)
 			if !x.Heap && isArr {
+				fr.localRegions = append(fr.localRegions, a.region.val.Uint64())
+				if fr.firstMemID == 0 {
+					fr.firstMemID = memNext
+				}
 				// stack arrays do not count as heap allocations
 				if g, ok := st.ghost["allocs"]; ok {
 					st.ghost["allocs"] = BVSub(g, BVConst(1, 64))
